@@ -379,6 +379,22 @@ def check_mesh(ctx, mesh, corners, n, dims, inst):
 # units
 
 
+def check_not_a_point(ctx, mesh, inst):
+    """a coordinate that is NaN or infinite is not a point of the region: point2index must refuse it"""
+    nd = mesh.region.ndim
+    c = [float(x) for x in mesh.region.center]
+    for ax in range(nd):
+        for bad in (float("nan"), float("inf"), float("-inf")):
+            p = list(c)
+            p[ax] = bad
+            ctx.step(1)
+            raised, r = C.raises(mesh.point2index, tuple(p) if nd > 1 else p[0])
+            ctx.check()
+            if not raised:
+                ctx.fail("Mesh.point2index/accepts-not-a-point", f"coordinate {bad!r} on axis {ax} mapped to index {r}", instance=inst)
+                return
+
+
 def unit_lattice1d(ctx):
     offset = ctx.choose("offset", OFFSETS)
     width = ctx.choose("width", WIDTHS)
@@ -537,10 +553,38 @@ def unit_bycell2d(ctx):
     else:
         ctx.note("Mesh(cell=):refused")
 
+def unit_bycell_many(ctx):
+    """meshes requested by cell size on LONG axes (1000 / 40000 cells): a leftover of 2 %, 40 % or 50 % of a cell is still
+    not a whole number of cells, however small it is relative to the edge; the exact multiple is accepted with that count"""
+    k = ctx.choose("cells", [1000, 40000])
+    cell = ctx.choose("cell", [1.0, 0.5, 1e-9])
+    left = ctx.choose("leftover-in-cells", [0.0, 0.02, 0.4, 0.5])
+    nd = ctx.choose("ndim", [1, 3])
+    lo = 0.0
+    hi = (k + left) * cell
+    if nd == 1:
+        region, arg, want = df.Region(p1=(lo,), p2=(hi,)), (cell,), [k]
+    else:
+        region, arg, want = df.Region(p1=(lo, 0.0, 0.0), p2=(hi, 10 * cell, 4 * cell)), (cell, cell, cell), [k, 10, 4]
+    ctx.step(1, f"Mesh(cell={cell}) on an edge of {k}+{left} cells")
+    raised, r = C.raises(lambda: df.Mesh(region=region, cell=arg))
+    ctx.check()
+    ctx.observe(raised, None if raised else [int(i) for i in r.n])
+    if left == 0.0:
+        if raised:
+            ctx.fail("Mesh(cell=)/refuses-commensurate-cell/many-cells", f"{type(r).__name__}: {str(r)[:120]}")
+        elif [int(i) for i in r.n] != want:
+            ctx.fail("Mesh(cell=)/wrong-count/many-cells", f"n={r.n} expected {want}")
+    elif not raised:
+        ctx.fail("Mesh(cell=)/accepts-non-commensurate-cell/many-cells", f"edge of {k}+{left} cells of {cell}: n={r.n}, cell={r.cell}")
+
+
+
 def unit_tolerance(ctx):
     """regions built with a non-default comparison tolerance (tolerance_factor 1e-9, 1e-6, 1e-3): the same lattice
     oracles; the ambiguity bands and the must-reject distance are taken from the region's own tolerance"""
-    tf = ctx.choose("tolerance_factor", [1e-6, 1e-9, 1e-3])
+    tf = ctx.choose("tolerance_factor", [1e-6, 1e-9, 1e-3, 1e-12])
+    bc = ctx.choose("bc", ["", "first-axis-periodic", "all-axes-periodic", "neumann"])  # boundary conditions do not change the lattice
     ndim = ctx.choose("ndim", [1, 2])
     a0 = ctx.choose("axis0", [RAXES[1], RAXES[2], RAXES[5], RAXES[6]])
     a1 = ctx.choose("axis1", [RAXES[0], RAXES[3], RAXES[4]]) if ndim == 2 else None
@@ -554,12 +598,14 @@ def unit_tolerance(ctx):
         n.append(c)
     dims = C.DIMSETS[ndim][0]
     ctx.step(1, f"Mesh(tolerance_factor={tf})")
-    mesh = df.Mesh(region=df.Region(p1=lo, p2=hi, dims=dims, tolerance_factor=tf), n=n)
+    bcs = {"": "", "first-axis-periodic": dims[0], "all-axes-periodic": "".join(dims), "neumann": "neumann"}[bc]
+    mesh = df.Mesh(region=df.Region(p1=lo, p2=hi, dims=dims, tolerance_factor=tf), n=n, bc=bcs)
     ctx.check()
     if mesh.region.tolerance_factor != tf:
         ctx.fail("Region/tolerance-factor-not-kept", f"{mesh.region.tolerance_factor!r} for {tf!r}")
         return
     check_mesh(ctx, mesh, (np.array(lo), np.array(hi)), tuple(n), dims, ctx.key())
+    check_not_a_point(ctx, mesh, ctx.key())
 
 
 # --------------------------------------------------------------------------------------------------------------------
@@ -693,6 +739,7 @@ def unit_history(ctx):
 
     if warm and not describe(mesh, cur_n, "start"):
         return
+    earlier = []  # objects that a copying step left behind: they must stay the lattices they were, whatever happens later
     for k, (st, form) in enumerate([(s1, f1), (s2, f2)]):
         if st is None:
             continue
@@ -702,10 +749,14 @@ def unit_history(ctx):
             # the original is still the lattice it was
             if not describe(mesh, cur_n, f"original-after-copying-step{k + 1}"):
                 return
+            earlier.append((mesh, list(cur_n), f"object-left-behind-by-copying-step{k + 1}"))
         mesh, cur_n = res, new_n
         if warm or k == 1 or s2 is None:
             if not describe(mesh, cur_n, f"after-step{k + 1}"):
                 return
+    for m, nn, tag in earlier:
+        if not describe(m, nn, tag + "-at-the-end"):
+            return
 
 
 def units(tier):
@@ -716,6 +767,7 @@ def units(tier):
         {"name": "lattice4d", "fn": unit_lattice4d, "bound": None},
         {"name": "bycell1d", "fn": unit_bycell1d, "bound": None},
         {"name": "bycell2d", "fn": unit_bycell2d, "bound": None},
+        {"name": "bycell_many", "fn": unit_bycell_many, "bound": None},
         {"name": "tolerance", "fn": unit_tolerance, "bound": None},
         {"name": "history", "fn": unit_history, "bound": None},
         {"name": "aliasing", "fn": unit_aliasing, "bound": None},
